@@ -141,7 +141,10 @@ func (fr *frame) run(order []nkey, incoming map[nkey][]edgePayload, rc *runCtx) 
 				rc.rets = append(rc.rets, retInfo{alive, vals, cur})
 				break instrs
 			case *ssa.Panic:
-				if vc.safety {
+				if c := vc.catching(); c != nil && vc.quiet == 0 {
+					c.panicAt(alive, cur)
+				}
+				if vc.catching() == nil && vc.safety {
 					vc.oblige("safety", shortFn(fn)+"#safety:panic", vc.pos(x.Pos()), "explicit panic is unreachable", alive, "false", []string{"C14"})
 				}
 				break instrs
@@ -400,6 +403,7 @@ func (fr *frame) cutLoopHeader(l *loopInfo, cur *State, env map[ssa.Value]Val, r
 	na := vc.fresh("alloc_loop", sortInt)
 	vc.assume("true", "(>= "+na+" "+cur.alloc+")")
 	cur.alloc = na
+	vc.trackAlloc(na)
 	// 4. assume invariants
 	te2 := fr.invEnv(l, cur, env)
 	for _, c := range invs {
